@@ -5,6 +5,7 @@ def build(u):
     m = Src.get("messages.rs")
     u.raw("use vstd::prelude::*;\nverus! {\n")
     u.env("prelude.rs")
+    u.canary_decls()
     u.spec("fee.rs")
     u.raw("pub mod messages {\nuse super::*;\n")
     u.item(m, "TrampolineRoutingPolicy", "struct")
